@@ -21,6 +21,7 @@ os.environ.setdefault("PYTHONHASHSEED", "0")
 import common  # noqa: E402
 from common import VERIF  # noqa: E402
 import props  # noqa: E402
+import pymon  # noqa: E402
 
 
 class Report:
@@ -55,6 +56,13 @@ def case_payload(pid, case, dr, verdict, extra=None):
 # --------------------------------------------------------------------------------------
 # run-kind properties
 # --------------------------------------------------------------------------------------
+def py_monitors(cfg):
+    """monitors over the parts of an implementation run that are not in the Coq trace type
+    (harness/pymon.py): the property's own ones and those applied to every run"""
+    own = cfg.get("py_monitor") or []
+    return ([own] if isinstance(own, str) else list(own)) + ["stale_oracle"]
+
+
 def run_slice(pid, cfg, n_cases, seed, workdir, rep, stats, profiles=None, attribute=None):
     import gen_run
     import run_cases
@@ -87,14 +95,16 @@ def run_slice(pid, cfg, n_cases, seed, workdir, rep, stats, profiles=None, attri
                 continue
             if dr.get("stalled"):
                 stats["script_cut_off"] += 1
-            if cfg.get("py_monitor"):
-                import pymon
-                why = getattr(pymon, cfg["py_monitor"])(dr)
+            why = None
+            for mon_name in py_monitors(cfg):
+                why = getattr(pymon, mon_name)(dr)
                 stats["py_monitor_checked"] += 1
                 if why:
-                    rep.violation(case_payload(pid, case, dr, None, {"failed": {"python_monitor": cfg["py_monitor"]},
+                    rep.violation(case_payload(pid, case, dr, None, {"failed": {"python_monitor": mon_name},
                                                                        "why": why}))
-                    continue
+                    break
+            if why:
+                continue
             todo.append((case, dr))
     verdicts = run_cases.judge_cases(todo, workdir, jobs=16, proj=cfg["proj"], mon=cfg["mon"])
     samples = []
@@ -178,9 +188,8 @@ def replay_run(pid, cfg, payload, workdir):
         return {"fails": True, "why": "exception %s" % (dr["exc"][:3],), "dr": dr}
     if not dr["valid"]:
         return {"fails": True, "why": "rejected by the validator: " + dr["stdout"][:200], "dr": dr}
-    if cfg.get("py_monitor"):
-        import pymon
-        why = getattr(pymon, cfg["py_monitor"])(dr)
+    for mon_name in py_monitors(cfg):
+        why = getattr(pymon, mon_name)(dr)
         if why:
             return {"fails": True, "why": why, "dr": dr}
     v = run_cases.judge_cases([(case, dr)], workdir, jobs=1, proj=cfg["proj"], mon=cfg["mon"])[0]
